@@ -89,73 +89,92 @@ func main() {
 				}
 				w := bufio.NewWriterSize(f, 1<<20)
 				rng := rand.New(rand.NewSource(seed*1000003 + int64(sh)))
-				// generate first, then execute with a worker pool (client/server ops sleep and wait on timers)
-				var ops []string
-				g(tier, rng, sh, nshards, func(op string) { ops = append(ops, op) })
-				// the operations are on disk before any of them runs: if one of them takes the whole process down (a loop
-				// that never ends and allocates, a fatal runtime error) the check finds it by executing them one process at a time
-				if of, err := os.Create(filepath.Join(outdir, fmt.Sprintf("shard-%02d.ops", sh))); err == nil {
-					ow := bufio.NewWriterSize(of, 1<<20)
-					for _, op := range ops {
-						ow.WriteString(op)
-						ow.WriteByte('\n')
-					}
-					ow.Flush()
-					of.Close()
+				// generate a batch, then execute it with a worker pool (client/server ops sleep and wait on timers); batches
+				// keep the memory of a thorough run bounded
+				of, oerr := os.Create(filepath.Join(outdir, fmt.Sprintf("shard-%02d.ops", sh)))
+				var ow *bufio.Writer
+				if oerr == nil {
+					ow = bufio.NewWriterSize(of, 1<<20)
 				}
-				results := make([]string, len(ops))
-				workers := 1
-				if len(ops) > 0 && (strings.HasPrefix(ops[0], "do ") || strings.HasPrefix(ops[0], "dor ") || strings.HasPrefix(ops[0], "asm ") || strings.HasPrefix(ops[0], "srv ") || strings.HasPrefix(ops[0], "conc ")) {
-					workers = 24
-				}
-				if prop == "C14" {
-					workers = 2 // every operation runs up to 8 spinning goroutines of its own
-				}
-				if prop == "C17" {
-					workers = 6 // one child process (a whole server and its clients) per operation
-					if tier == "race" || raceEnabled {
-						workers = 2
-					}
-				}
-				var pw sync.WaitGroup
 				var slow int32
-				const skipped = "\x00skipped"
-				next := make(chan int, 1024)
-				for k := 0; k < workers; k++ {
-					pw.Add(1)
-					go func() {
-						defer pw.Done()
-						for i := range next {
-							// fail fast on a tree where operations hang: once four operations of this shard needed more than
-							// 45 s each (none does on a healthy tree), the rest of the shard is not executed - what was
-							// executed is judged, the number of dropped operations is recorded
-							if atomic.LoadInt32(&slow) >= 4 {
-								results[i] = skipped
-								continue
-							}
-							t0 := time.Now()
-							results[i] = execOp(ops[i])
-							if time.Since(t0) > 45*time.Second {
-								atomic.AddInt32(&slow, 1)
-							}
-						}
-					}()
-				}
-				for i := range ops {
-					next <- i
-				}
-				close(next)
-				pw.Wait()
 				dropped := 0
-				for i, op := range ops {
-					if results[i] == skipped {
-						dropped++
-						continue
+				const skipped = "\x00skipped"
+				var ops []string
+				flush := func() {
+					if len(ops) == 0 {
+						return
 					}
-					w.WriteString(op)
-					w.WriteByte('\t')
-					w.WriteString(results[i])
-					w.WriteByte('\n')
+					// the operations are on disk before any of them runs: if one of them takes the whole process down (a loop
+					// that never ends and allocates, a fatal runtime error) the check finds it by executing them one process at a time
+					if ow != nil {
+						for _, op := range ops {
+							ow.WriteString(op)
+							ow.WriteByte('\n')
+						}
+						ow.Flush()
+					}
+					results := make([]string, len(ops))
+					workers := 1
+					if strings.HasPrefix(ops[0], "do ") || strings.HasPrefix(ops[0], "dor ") || strings.HasPrefix(ops[0], "asm ") || strings.HasPrefix(ops[0], "srv ") || strings.HasPrefix(ops[0], "conc ") {
+						workers = 24
+					}
+					if prop == "C14" {
+						workers = 2 // every operation runs up to 8 spinning goroutines of its own
+					}
+					if prop == "C17" {
+						workers = 6 // one child process (a whole server and its clients) per operation
+						if tier == "race" || raceEnabled {
+							workers = 2
+						}
+					}
+					var pw sync.WaitGroup
+					next := make(chan int, 1024)
+					for k := 0; k < workers; k++ {
+						pw.Add(1)
+						go func() {
+							defer pw.Done()
+							for i := range next {
+								// fail fast on a tree where operations hang: once four operations of this shard needed more than
+								// 45 s each (none does on a healthy tree), the rest of the shard is not executed - what was
+								// executed is judged, the number of dropped operations is recorded
+								if atomic.LoadInt32(&slow) >= 4 {
+									results[i] = skipped
+									continue
+								}
+								t0 := time.Now()
+								results[i] = execOp(ops[i])
+								if time.Since(t0) > 45*time.Second {
+									atomic.AddInt32(&slow, 1)
+								}
+							}
+						}()
+					}
+					for i := range ops {
+						next <- i
+					}
+					close(next)
+					pw.Wait()
+					for i, op := range ops {
+						if results[i] == skipped {
+							dropped++
+							continue
+						}
+						w.WriteString(op)
+						w.WriteByte('\t')
+						w.WriteString(results[i])
+						w.WriteByte('\n')
+					}
+					ops = ops[:0]
+				}
+				g(tier, rng, sh, nshards, func(op string) {
+					ops = append(ops, op)
+					if len(ops) >= 50000 {
+						flush()
+					}
+				})
+				flush()
+				if of != nil && oerr == nil {
+					of.Close()
 				}
 				w.Flush()
 				f.Close()
